@@ -174,6 +174,7 @@ def extra(ctx, out, quick_n=32, thorough_n=400, gold_cb_flip_mode=None):
         metas.append(ref)
         return len(cases) - 1
 
+    base_main = set()
     for pidx, prog, perm, label, shape in gen_pairs(ctx, n, K):
         try:
             names = _names(prog)
@@ -209,6 +210,10 @@ def extra(ctx, out, quick_n=32, thorough_n=400, gold_cb_flip_mode=None):
         else:
             add('case', 'order_case2 %s %s' % (cp, cq), k)
         add('main', gen_main2.emit_case(cq, res), k)
+        if pidx not in base_main:
+            # the base program as well (model = implementation on BOTH programs of the pair from this stream)
+            base_main.add(pidx)
+            add('main', gen_main2.emit_case(cp, gen_main.run_impl(prog)), k)
         if wf:
             if pidx not in seen_prog:
                 seen_prog[pidx] = add('ok_p', 'order_ok2 %s' % cp, k)
